@@ -169,8 +169,7 @@ func (d *Dumper) ValueLit(in any, optFns ...ValueLitOptFn) string {
 		// what is pointed to is a value of its own, not a struct field that may be left out
 		return fmt.Sprintf("&(%s)", d.ValueLit(elem, append(optFns, SubValue(false))...))
 	case reflect.Struct:
-		buf := bytes.NewBufferString(d.ReflectTypeLit(tpe))
-		buf.WriteString(`{`)
+		fields := bytes.NewBuffer(nil)
 
 		c := 0
 
@@ -186,14 +185,14 @@ func (d *Dumper) ValueLit(in any, optFns ...ValueLitOptFn) string {
 				}
 
 				if c == 0 {
-					buf.WriteString("\n")
+					fields.WriteString("\n")
 				}
 
-				buf.WriteString(ft.Name)
-				buf.WriteString(":")
-				buf.WriteString(v)
-				buf.WriteString(",")
-				buf.WriteString("\n")
+				fields.WriteString(ft.Name)
+				fields.WriteString(":")
+				fields.WriteString(v)
+				fields.WriteString(",")
+				fields.WriteString("\n")
 
 				c++
 			}
@@ -203,6 +202,12 @@ func (d *Dumper) ValueLit(in any, optFns ...ValueLitOptFn) string {
 		if o.SubValue && c == 0 {
 			return ""
 		}
+
+		// the type literal registers the type's package as an import: only once
+		// the value is known to be rendered
+		buf := bytes.NewBufferString(d.ReflectTypeLit(tpe))
+		buf.WriteString(`{`)
+		buf.Write(fields.Bytes())
 
 		buf.WriteString(`}`)
 
